@@ -518,10 +518,8 @@ def xstack_effect(opcode, opc, oparg: int = 0, jump=None):
     elif opname == "CALL_FUNCTION_EX":
         if (3, 5) <= version_tuple < (3, 11):
             return -2 if oparg & 1 else -1
-        elif 0 <= oparg <= 3:
-            return -3 if oparg & 1 else -2
         else:
-            return None
+            return -3 if oparg & 1 else -2
     elif opname in (
         "INSTRUMENTED_LOAD_SUPER_ATTR",
         "LOAD_SUPER_ATTR",
